@@ -1,7 +1,7 @@
 #!/bin/bash
 # usage: tools/confirm_mutant.sh <PROP> <A|B>   — confirms a sub-agent's change in its scratch worktree
 set -u
-P=$1; X=$2; W=/tmp/mut/$P; M=$W/MUTANTS/$X
+R=${3:-/tmp/mut}; P=$1; X=$2; W=$R/$P; M=$W/MUTANTS/$X
 export CARGO_NET_OFFLINE=true
 cd $W || exit 2
 git diff --quiet || { echo "worktree dirty"; exit 2; }
@@ -10,8 +10,8 @@ run_demo() { case "$demo" in *.py) python3 "$demo" $W/compiler;; *) bash "$demo"
 git apply $M/patch.diff || { echo "patch does not apply"; exit 2; }
 tests=$(cd compiler && cargo test --workspace --no-fail-fast --offline 2>&1 | grep -E "^test result" | awk '{p+=$4; f+=$6} END {print p" passed "f" failed"}')
 (cd compiler && cargo build -p ironplcc --offline >/dev/null 2>&1)
-run_demo >/tmp/mut/demo_with.log 2>&1; with=$?
+run_demo >$R/demo_with.log 2>&1; with=$?
 git apply -R $M/patch.diff
 (cd compiler && cargo build -p ironplcc --offline >/dev/null 2>&1)
-run_demo >/tmp/mut/demo_without.log 2>&1; without=$?
+run_demo >$R/demo_without.log 2>&1; without=$?
 echo "$P-$X: tests with change: $tests; demo with change exit=$with; demo without change exit=$without"
